@@ -5,6 +5,7 @@
 // With LOCALS=1 every local variable and named result is renamed too.
 // SWAPCMP=1 mirrors every comparison with side-effect-free operands (a < b -> b > a);
 // SWAPIF=1 turns every if/else into if !(c) with the arms exchanged.
+// REORDER=1 reverses the order of the function declarations of every file;
 // DEFERS=1 puts `defer func() {}()` at the top of every declared function; LOGS=1 puts a guarded
 // debug statement in front of every statement (both instead of the renaming).
 // usage: renameparams <repo-dir> <pkg-pattern>...
@@ -92,6 +93,43 @@ func main() {
 				}
 				ren[o] = true
 			}
+		}
+		if os.Getenv("REORDER") != "" {
+			// the function declarations of every file in reverse order (doc comments move with them)
+			for i, f := range p.Syntax {
+				type rng struct{ a, b int }
+				var slots []rng
+				for _, d := range f.Decls {
+					if fd, ok := d.(*ast.FuncDecl); ok {
+						a := fd.Pos()
+						if fd.Doc != nil {
+							a = fd.Doc.Pos()
+						}
+						slots = append(slots, rng{p.Fset.Position(a).Offset, p.Fset.Position(fd.End()).Offset})
+					}
+				}
+				if len(slots) < 2 {
+					continue
+				}
+				src, err := os.ReadFile(p.CompiledGoFiles[i])
+				if err != nil {
+					panic(err)
+				}
+				var out []byte
+				last := 0
+				for k, sl := range slots {
+					out = append(out, src[last:sl.a]...)
+					o := slots[len(slots)-1-k]
+					out = append(out, src[o.a:o.b]...)
+					last = sl.b
+					n++
+				}
+				out = append(out, src[last:]...)
+				if err := os.WriteFile(p.CompiledGoFiles[i], out, 0o644); err != nil {
+					panic(err)
+				}
+			}
+			continue
 		}
 		if os.Getenv("DEFERS") != "" {
 			// an empty deferred call at the top of every declared function
